@@ -800,8 +800,39 @@ static void polpair_one_lib(int li, int i, int j, int m, int k) {
 }
 static void polpairs_shard(long shard, void *arg) { (void)arg; int i = (int)shard; for (int j = 0; j < NPOL; j++) for (int m = 0; m < 4; m++) for (int k = 0; k < NPMASK; k++) polpair_one(i, j, m, k); }
 
+/* ---------- unobserved: the harness reads eav_errstr after every call - an observation that a lazily filled message cache would turn into a
+ * state change.  Here the message is read ONLY at the end: validate, do not look, then (a) read; (b) eav_free, read; (c) validate another address,
+ * eav_free, read; each compared with an object on which the message was read right after the call.  A crash is reported as one. */
+static void unobserved_one(int i, int m, int t, int li) {
+    lib_t *l = &LIB[li]; char cfg[96]; snprintf(cfg, sizeof cfg, "lib=%s m=%d t=%d i=%d", l->name, m, t, i);
+    mc_current("unobserved", cfg, XP[i], strlen(XP[i]));
+    /* both the reference call and each call under test are made right after the same neutral call on a third object, so that a library with hidden
+     * process-wide state (xpairs' business) is in the same state before both, whatever this worker validated earlier - and in a fresh replay process */
+#define NEUTRAL() do { void *nz = l->new_(0x5A); l->init(nz); l->set_rfc(nz, 0); l->set_tld(nz, 1); if (!l->setup(nz)) l->is_email(nz, "x@a.com", 7); l->free_(nz); l->delete_(nz); } while (0)
+    void *ref = l->new_(0x5A); l->init(ref); l->set_rfc(ref, m); l->set_tld(ref, t); if (l->setup(ref)) { l->delete_(ref); return; }
+    NEUTRAL(); errno = 0; l->is_email(ref, XP[i], strlen(XP[i])); const char *w0 = l->errstr(ref); char want[256]; snprintf(want, sizeof want, "%s", w0 ? w0 : "(null)");
+    for (int variant = 0; variant < 3; variant++) {
+        void *o = l->new_(0xA5); l->init(o); l->set_rfc(o, m); l->set_tld(o, t); if (l->setup(o)) { l->delete_(o); continue; }
+        char w2[256]; snprintf(w2, sizeof w2, "%s", want);
+        NEUTRAL(); errno = 0; l->is_email(o, XP[i], strlen(XP[i])); MC_ADD(C_EVAL, 1);
+        if (variant == 2) { const char *other = XP[(i + 7) % NXP]; void *r2 = l->new_(0x5A); l->init(r2); l->set_rfc(r2, m); l->set_tld(r2, t); l->setup(r2); NEUTRAL(); l->is_email(r2, XP[i], strlen(XP[i])); l->is_email(r2, other, strlen(other)); const char *x = l->errstr(r2); snprintf(w2, sizeof w2, "%s", x ? x : "(null)"); l->free_(r2); l->delete_(r2);
+                            l->is_email(o, other, strlen(other)); }
+        if (variant >= 1) l->free_(o);
+        const char *g = l->errstr(o); char got[256]; snprintf(got, sizeof got, "%s", g ? g : "(null)");
+        if (strcmp(got, w2)) mc_violation("unobserved", variant == 0 ? "unobserved:first-read-differs" : "unobserved:first-read-after-eav_free-differs", "", cfg, XP[i], strlen(XP[i]),
+                                          "[%s] mode %d tld_check %d, variant %d: eav_errstr read for the first time %s says \"%s\"; read right after the call it says \"%s\"", l->name, m, t, variant, variant ? "after eav_free" : "later", got, w2);
+        if (variant == 0) l->free_(o);
+        l->delete_(o);
+    }
+    l->free_(ref); l->delete_(ref);
+}
+static void unobserved_shard(long shard, void *arg) { (void)arg; for (int li = 0; li < NLIB; li++) for (int m = 0; m < 4; m++) for (int t = 0; t < 2; t++) unobserved_one((int)shard, m, t, li); }
+
 static int do_replay(void) {
     mc_replay_t rp; if (mc_load_replay(mc_replay, &rp)) return 2;
+    if (!strcmp(rp.sub, "unobserved") || !strcmp(rp.sub, "crash:unobserved")) { xpairs_build(); mc_replay_hit = 0; int li = 0; for (int k = 0; k < NLIB; k++) { char key[24]; snprintf(key, sizeof key, "lib=%s ", LIB[k].name); if (strstr(rp.cfg, key)) li = k; }
+        unobserved_one((int)mc_cfg_int(rp.cfg, "i", 0), (int)mc_cfg_int(rp.cfg, "m", 0), (int)mc_cfg_int(rp.cfg, "t", 0), li);
+        printf("replay %s: %s\n", mc_replay, mc_replay_hit ? "VIOLATION reproduced" : "no violation (a crash would have killed this process)"); return mc_replay_hit ? 1 : 0; }
     if (!strcmp(rp.sub, "faultlen")) { mc_replay_hit = 0; int code = (int)mc_cfg_int(rp.cfg, "code", 0); fault_lengths(code, NULL);
         printf("replay %s: %s\n", mc_replay, mc_replay_hit ? "VIOLATION reproduced" : "no violation"); return mc_replay_hit ? 1 : 0; }
     if (!strcmp(rp.sub, "faultcorpus")) { mc_replay_hit = 0; fault_corpus_sink(rp.in, (size_t)rp.len, NULL);
@@ -870,7 +901,7 @@ int main(int argc, char **argv) {
     C_CORPUS = mc_counter("corpus_addresses_through_all_backends");
     if (!strcmp(PROP, "C18corpus")) {
         mc_driver = "C18"; CORPUS_DEEP = mc_thorough; if (corpus_load()) return 2; corpus_objects();
-        static const int PH[] = { CP_TLD, CP_IDN, CP_LONGIDN, CP_ALTDOT, CP_LABELLEN, CP_MAXLIT, CP_LPXDOM, CP_WHOLEDOM, CP_DEPTH, CP_EMBED, CP_SUBST, CP_SHORTLAB, CP_POSN, CP_WRAP, CP_EMAIL, CP_DOMAIN, CP_LITERAL, CP_LOCAL, CP_BYTES, CP_CROSS, CP_LONG, CP_SCALARS };
+        static const int PH[] = { CP_TLD, CP_IDN, CP_LONGIDN, CP_ALTDOT, CP_LABELLEN, CP_MAXLIT, CP_LPXDOM, CP_WHOLEDOM, CP_DEPTH, CP_EMBED, CP_SUBST, CP_SHORTLAB, CP_POSN, CP_WRAP, CP_EDIT, CP_EMAIL, CP_DOMAIN, CP_LITERAL, CP_LOCAL, CP_BYTES, CP_CROSS, CP_LONG, CP_SCALARS };
         policy_build(); mc_parallel("3 backends: all 2^11 allow_tld masks x one address per class x 4 modes", 64, policy_shard, NULL);
         for (unsigned i = 0; i < sizeof PH / sizeof PH[0]; i++) { CURPH = PH[i]; char nm[64]; snprintf(nm, sizeof nm, "3 backends: %.40s", corpus_name(CURPH)); mc_parallel(nm, corpus_shards(CURPH), corpus_shard, NULL); }
         return mc_finish();
@@ -880,6 +911,7 @@ int main(int argc, char **argv) {
     if (!strcmp(PROP, "C13") && !TWO_OBJECTS && MAXDEPTH >= 40) { pairs_build(); mc_parallel("pairs: every ordered pair of the 1296 addresses x@b.XY on one object, 3 configurations", NPAIR, pairs_shard, NULL); }
     if ((!strcmp(PROP, "C13") || (!strcmp(PROP, "C18") && !CTXFAIL && NLIB == 3)) && !TWO_OBJECTS && MAXDEPTH >= 40) { xpairs_build(); char nmx[160]; snprintf(nmx, sizeof nmx, "xpairs: every ordered pair of %d feature addresses x every ordered pair of 8 (mode, tld_check) configurations, on two objects and on one", NXP);
         mc_parallel(nmx, NXP, xpairs_shard, NULL);
+        mc_parallel("unobserved: eav_errstr read for the first time only at the end (later / after eav_free / after a second call and eav_free), every feature address x 4 modes x tld on/off", NXP, unobserved_shard, NULL);
         polpairs_build(); snprintf(nmx, sizeof nmx, "polpairs: %d class / form representatives x 14 masks x 4 modes, each right after every one of %d feature addresses on the same object", NPOL, NXP);
         mc_parallel(nmx, NXP, polpairs_shard, NULL); }
     if (FAULTS) mc_parallel("direct is_utf8_domain with one shared idn-code variable: every code x buffer x tld_check x 6 follow-up names", 1, direct_runs, NULL);
